@@ -469,9 +469,17 @@ func RunC06(ctx *core.Ctx, r *core.Rng) {
 			odd = core.Pick(r, oddNames)
 			ctx.Stats.Inc("probe/unusual_file_name")
 		}
+		via := ""
+		if r.Chance(0.15) { // the same file reached by another spelling of its path
+			via = core.Pick(r, []string{"dot", "abs", "dotdot", "symlink", "symlink"})
+			ctx.Stats.Inc("probe/path_spelled_" + via)
+		}
 		for _, cfg := range cfgs {
 			cfg := cfg
 			cfg.Odd = odd
+			if cfg.Kind != "fifo" && !(odd == "-" || odd == "~") {
+				cfg.Via = via
+			}
 			if odd == "-" && cfg.Kind != "plain" {
 				cfg.Odd = "-x" // "-" itself cannot carry the .gz suffix
 			}
@@ -479,6 +487,7 @@ func RunC06(ctx *core.Ctx, r *core.Rng) {
 			v := execC06Ref(c, ref, true)
 			ctx.Eval()
 			ctx.Stats.Inc("config/" + f.Name + "/file_" + cfg.Kind)
+			ctx.EvS("file " + cfg.Kind + " " + cfg.Odd + " " + cfg.Via)
 			ctx.Seen(inHash ^ core.HashString("file/"+cfg.Kind))
 			if cfg.Kind == "gz2" {
 				ctx.Stats.Inc("probe/gzip_multi_member")
@@ -507,7 +516,7 @@ func RunC06(ctx *core.Ctx, r *core.Rng) {
 
 	// Clause 4: unopenable paths.
 	if r.Chance(0.15) {
-		for _, k := range []string{"missing", "missing-parent", "through-file", "missing", "emfile"} {
+		for _, k := range []string{"missing", "missing-parent", "through-file", "missing", "emfile", "dangling-symlink"} {
 			cfg := sim.FileCfg{Kind: k}
 			if k == "missing" && r.Chance(0.5) {
 				cfg.Odd = core.Pick(r, oddNames) // e.g. "-": no such file, so an error, not standard input
